@@ -116,6 +116,22 @@ class HSym:
         param.els = list(value.els)
         return param
 
+    def patch(self, module, name, value):
+        """replace a module-level function of the code under verification by a harness-provided one: the callee is then under an
+        *assumed* contract (used for the torch.fx conversion entry points, which are outside the reach of contracts)"""
+        self.it.load(module).env.set(name, value)
+        self.store.patched = getattr(self.store, 'patched', set())
+        self.store.patched.add(f'{module}.{name}')
+
+    def set_requires_grad(self, t, v):
+        t.requires_grad = v if is_sym(v) else bool(v)
+
+    def get_requires_grad(self, t):
+        return t.requires_grad
+
+    def named_parameters(self, module):
+        return list(self.it.call(self.it.getattr(module, 'named_parameters'), [], {}))
+
     def scalar(self, t):
         return _sc(t)
 
@@ -129,7 +145,7 @@ class HSym:
         return isinstance(t, Tensor)
 
     def requires_grad(self, t):
-        return bool(t.requires_grad)
+        return t.requires_grad
 
     def is_parameter(self, t):
         return isinstance(t, Tensor) and t.is_param
